@@ -250,8 +250,37 @@ func (t *Tree) Parse() error {
 		}
 		t.root.Append(n)
 	}
+	// The parser bounds how deep it recurses; chains it reads in a loop (a long
+	// sum, the parts of an interpolated string) and products of the two still
+	// build a tree as deep as they are long.
+	if p, ok := t.tooDeep(); ok {
+		return t.enrichError(newNestingError(p))
+	}
 	t.traverse(t.root)
 	return nil
+}
+
+// tooDeep reports whether some node lies more than maxDepth levels below the
+// root, and where. It does not recurse.
+func (t *Tree) tooDeep() (Pos, bool) {
+	type level struct {
+		n Node
+		d int
+	}
+	todo := []level{{t.root, 1}}
+	for len(todo) > 0 {
+		cur := todo[len(todo)-1]
+		todo = todo[:len(todo)-1]
+		if cur.d > maxDepth {
+			return cur.n.Start(), true
+		}
+		for _, c := range cur.n.All() {
+			if c != nil {
+				todo = append(todo, level{c, cur.d + 1})
+			}
+		}
+	}
+	return Pos{}, false
 }
 
 // parse parses generic input, such as text markup, print or tag statement opening tokens.
